@@ -9,6 +9,7 @@ import Yabgp.Driver.MpOps
 import Yabgp.Driver.RestOps
 import Yabgp.Driver.EvfOps
 import Yabgp.Driver.XcOps
+import Yabgp.Driver.TlvOps
 
 namespace Yabgp.Glue
 open Lean (Json)
@@ -21,12 +22,16 @@ structure DState where
   rest : Yabgp.RestGlue.RestState := {}
   evf : Yabgp.EvfGlue.EvfDState := {}
   xc : XcGlue.XcState := {}
+  tlv : Yabgp.TlvGlue.TlvDState := {}
 
 def dispatch (st : DState) (j : Json) : Except String (DState × Json) := do
   let op ← getStr j "op"
   if Yabgp.RibGlue.isRibOp op then
     let (r, out) ← Yabgp.RibGlue.dispatchRib st.rib j
     return ({ st with rib := r }, out)
+  if Yabgp.TlvGlue.isTlvOp op then
+    let (t', r) ← Yabgp.TlvGlue.dispatchTlv st.tlv j
+    return ({ st with tlv := t' }, r)
   if op.startsWith "extcomm." || op.startsWith "commtext." || op.startsWith "largetext." || op.startsWith "xc."
       || op == "spec.rfcextcomm" || op == "spec.rfcextattr" then
     let (x, r) ← XcGlue.dispatchXc st.xc j
